@@ -89,7 +89,8 @@ theorem init_inv (sys : Sys) (reqs : List (TyId × Nat)) (hbal : ∀ r ∈ reqs,
         nodupVals := by simp [mkThread]
         locs := fun loc x h => by simp [mkThread] at h
         live := fun x sd h => by simp [init] at h
-        fresh := fun _ j cd h => by simp [init] at h }
+        fresh := fun _ j cd h => by simp [init] at h
+        res := by simp [mkThread] }
 
 theorem run_inv (hmode : sys.mode = .byId) (σ : List Tid) : ∀ {s : State}, Inv sys s → Inv sys (run sys s σ) := by
   induction σ with
